@@ -20,6 +20,9 @@ type TunnelEnv struct {
 	// Backends by host:port as the client names them.
 	Backends map[string]*Backend
 	W        time.Duration // watchdog for "must react"
+	// Auth, if set, authenticates each fresh connection and returns the
+	// headers for the channel request on it.
+	Auth func(hc *HConn, method string) (Hdr, error)
 }
 
 var connCtr uint64
@@ -33,11 +36,27 @@ func NewConnID(prefix string) string {
 func (e *TunnelEnv) OpenTunnel(connID string) (*TClient, *HResp, error) {
 	d := DialOpts{LocalIP: e.LocalIP, TLS: e.TLS}
 	if e.Transport == "ws" {
-		return OpenWS(e.GW.Addr, WSOpts{Dial: d, ConnID: connID, Headers: e.Headers})
+		if e.Auth == nil {
+			return OpenWS(e.GW.Addr, WSOpts{Dial: d, ConnID: connID, Headers: e.Headers})
+		}
+		hc, err := DialH(e.GW.Addr, d)
+		if err != nil {
+			return nil, nil, err
+		}
+		ah, err := e.Auth(hc, "RDG_OUT_DATA")
+		if err != nil {
+			hc.Close()
+			return nil, nil, fmt.Errorf("auth: %w", err)
+		}
+		t, r, err := OpenWSOn(hc, WSOpts{ConnID: connID, Headers: append(append(Hdr{}, e.Headers...), ah...)})
+		if t == nil {
+			hc.Close()
+		}
+		return t, r, err
 	}
 	from := e.GW.EventCount()
 	t, res, err := OpenLegacy(e.GW.Addr, LegacyOpts{Dial: d, ConnID: connID, OutHeaders: e.Headers, InHeaders: e.Headers,
-		WaitDrained: e.GW.WaitDrained(from)})
+		WaitDrained: e.GW.WaitDrained(from), Auth: e.Auth})
 	var r *HResp
 	if res != nil {
 		r = res.In
